@@ -386,28 +386,34 @@ func fillSpare(full reflect.Value, n int) {
 }
 
 // SpareDigest folds the elements beyond the length of every integer slice reachable from v (what Observe does
-// not show) into one number.
+// not show) into one number. The entries of a map are combined by addition: their order is not defined.
 func SpareDigest(v reflect.Value) uint64 {
-	h := uint64(1)
-	seen := map[uintptr]bool{}
-	var walk func(v reflect.Value)
-	walk = func(v reflect.Value) {
+	depth := 0
+	var walk func(v reflect.Value) uint64
+	walk = func(v reflect.Value) uint64 {
+		h := uint64(1)
+		// shared parts are walked once per path (a visited set would make the answer depend on the order in which the
+		// entries of a map are met); the corpus values are acyclic, the bound is for safety
+		if depth++; depth > 200 {
+			depth--
+			return h
+		}
+		defer func() { depth-- }()
 		switch v.Kind() {
 		case reflect.Ptr:
-			if !v.IsNil() && !seen[v.Pointer()] {
-				seen[v.Pointer()] = true
-				walk(v.Elem())
+			if !v.IsNil() {
+				h = 31*h + walk(v.Elem())
 			}
 		case reflect.Interface:
 			if !v.IsNil() {
-				walk(v.Elem())
+				h = 31*h + walk(v.Elem())
 			}
 		case reflect.Slice:
 			if v.IsNil() {
-				return
+				return h
 			}
 			for i := 0; i < v.Len(); i++ {
-				walk(v.Index(i))
+				h = 31*h + walk(v.Index(i))
 			}
 			full := v.Slice3(0, v.Cap(), v.Cap())
 			for i := v.Len(); i < full.Len(); i++ {
@@ -420,19 +426,19 @@ func SpareDigest(v reflect.Value) uint64 {
 			}
 		case reflect.Array:
 			for i := 0; i < v.Len(); i++ {
-				walk(v.Index(i))
+				h = 31*h + walk(v.Index(i))
 			}
 		case reflect.Struct:
 			for i := 0; i < v.NumField(); i++ {
-				walk(v.Field(i))
+				h = 31*h + walk(v.Field(i))
 			}
 		case reflect.Map:
 			it := v.MapRange()
 			for it.Next() {
-				walk(it.Value())
+				h += walk(it.Value())
 			}
 		}
+		return h
 	}
-	walk(v)
-	return h
+	return walk(v)
 }
